@@ -24,7 +24,7 @@ func c17CheckDecode(t *verifrt.T, buf []byte) {
 	val, cur, err := d.decodeByte(buf, 0)
 	tok := verifref.StringLiteral(orig)
 	accepted := err == nil
-	and, or, implies := verifrt.And, verifrt.Or, verifrt.Implies
+	and, implies := verifrt.And, verifrt.Implies
 	t.ObserveBool("accepted", accepted)
 	if accepted {
 		t.Observe("cur", uint64(cur))
@@ -35,10 +35,7 @@ func c17CheckDecode(t *verifrt.T, buf []byte) {
 	good := and(accepted, tok.OK)
 	t.Assert("cursor-after-closing-quote", implies(good, int(cur) == tok.End))
 	if accepted && tok.OK {
-		same := verifref.BytesEq(val, tok.Value)
-		kfUTF8 := and(tok.BadUTF8, !same)
-		t.Known("D28-buffer-mode-keeps-invalid-UTF-8", kfUTF8)
-		t.Assert("value-as-encoding-json", or(same, kfUTF8))
+		t.Assert("value-as-encoding-json", verifref.BytesEq(val, tok.Value))
 	}
 	t.Cover("accepted-escaped", and(accepted, tok.Escaped))
 	t.Cover("accepted-plain", and(accepted, !tok.Escaped))
